@@ -152,12 +152,91 @@ let run_spec toks =
       "OK " ^ pr_chunks (spec_chunks (config_of a bits mn mx w) false (bytes_of_hex data))
   | _ -> failwith "spec: bad case"
 
+(* ---- chunk index / clone output ---- *)
+let nlist_of (s : string) : n list = if s = "" then [] else List.map n_of_string (split_on ',' s)
+
+let index_of (s : string) : (n * loc) list =
+  if s = "-" then []
+  else
+    List.map
+      (fun e ->
+        match String.split_on_char ':' e with
+        | [ k; sz; offs ] -> (n_of_string k, { l_size = n_of_string sz; l_offs = nlist_of offs })
+        | _ -> failwith "index entry")
+      (split_on ';' s)
+
+let pr_nlist l = String.concat "," (List.map string_of_n l)
+
+let pr_index (idx : (n * loc) list) : string =
+  if idx = [] then "-"
+  else
+    let l = List.sort (fun (a, _) (b, _) -> compare (int_of_n a) (int_of_n b)) idx in
+    String.concat ";" (List.map (fun (k, l) -> string_of_n k ^ ":" ^ string_of_n l.l_size ^ ":" ^ pr_nlist l.l_offs) l)
+
+let pr_ops (ops : rop list) : string =
+  if ops = [] then "-"
+  else
+    String.concat " "
+      (List.map
+         (function
+           | RCopy (k, size, src, dests) -> "C" ^ string_of_n k ^ ":" ^ string_of_n size ^ ":" ^ string_of_n src ^ ":" ^ pr_nlist dests
+           | RStore (k, size, src) -> "M" ^ string_of_n k ^ ":" ^ string_of_n size ^ ":" ^ string_of_n src)
+         ops)
+
+let run_planner toks =
+  match toks with
+  | [ cur; tgt ] ->
+      let cur = index_of cur and tgt = index_of tgt in
+      let ((stripped, cnt), total) = strip_in_place cur tgt in
+      let ops = reorder_ops cur stripped in
+      "OK " ^ string_of_n cnt ^ " " ^ string_of_n total ^ " | " ^ pr_index stripped ^ " | " ^ pr_ops ops
+  | _ -> failwith "planner: bad case"
+
+let pr_trace (t : tev list) : string =
+  if t = [] then "-"
+  else
+    String.concat ","
+      (List.map (function TSeek o -> "s" ^ string_of_n o | TWrite d -> "w" ^ hex_of_bytes d | TRead k -> "r" ^ string_of_n k) t)
+
+let run_clone toks =
+  match toks with
+  | [ prior; cidx; oidx; fault; feeds ] ->
+      let fault =
+        if fault = "-" then None
+        else match String.split_on_char ',' fault with [ k; t ] -> Some (n_of_string k, n_of_string t) | _ -> failwith "fault" in
+      let st0 = o_init (bytes_of_hex prior) fault in
+      let cidx = index_of cidx in
+      let ((st1, idx1), moved) =
+        if oidx = "N" then ((st0, cidx), N0)
+        else reorder_in_place st0 cidx (index_of (String.sub oidx 1 (String.length oidx - 1))) in
+      let feeds =
+        if feeds = "-" then []
+        else List.map (fun f -> match String.split_on_char '=' f with [ k; d ] -> (n_of_string k, bytes_of_hex d) | _ -> failwith "feed") (split_on ';' feeds) in
+      let st = ref st1 and idx = ref idx1 and fed = ref [] in
+      List.iter
+        (fun (k, d) ->
+          if (!st).o_err = None then begin
+            let ((st', idx'), cnt) = feed !st !idx k d in
+            st := st';
+            idx := idx';
+            if st'.o_err = None then fed := cnt :: !fed
+          end)
+        feeds;
+      (match (!st).o_err with
+      | None ->
+          "OK " ^ string_of_n moved ^ " " ^ (if !fed = [] then "-" else pr_nlist (List.rev !fed)) ^ " " ^ hex_of_bytes (!st).o_file ^ " "
+          ^ pr_trace (!st).o_trace ^ " " ^ pr_index !idx
+      | Some _ -> "ERR " ^ hex_of_bytes (!st).o_file ^ " " ^ pr_trace (!st).o_trace)
+  | _ -> failwith "clone: bad case"
+
 let dispatch (line : string) : string =
   match split_on ' ' line with
   | "hash" :: r -> run_hash r
   | "oneshot" :: r -> run_oneshot r
   | "stream" :: r -> run_stream r
   | "spec" :: r -> run_spec r
+  | "planner" :: r -> run_planner r
+  | "clone" :: r -> run_clone r
   | k :: _ -> failwith ("unknown suite " ^ k)
   | [] -> ""
 
